@@ -260,10 +260,11 @@ def run(ck, P):
           witness=[("del_event", rv.unit, rv.name, e.block.id, e.idx) for e in rm1 + rm2])
     cs = P.fn("create_src")
     ck.analysed(cs)
+    from props.common import flag_forced_for_type
     for tn in ("M_SRC_TYPE_TASK", "M_SRC_TYPE_THRESH"):
-        fo = [e for e in cs.events() if e.kind == "assign" and S(e.lhs) == "src->flags" and e.e["op"] == "|=" and cval(e.rhs) == ONE
-              and has(X.facts(cs, e), "(type == %d)" % E[tn])]
-        ck.ob("C03.4-ONESHOT", cs.site("forced for " + tn[11:]), bool(fo), "%s sources are forced one-shot: %s" % (tn[11:], bool(fo)))
+        tot_, set_ = flag_forced_for_type(cs, E[tn], ONE)
+        fo = tot_ > 0 and set_ == tot_
+        ck.ob("C03.4-ONESHOT", cs.site("forced for " + tn[11:]), fo, "%s sources are forced one-shot: %d of %d creating path(s) set the flag" % (tn[11:], set_, tot_))
 
     # ------------------------------------------------------------------ 4b. watched signals stay blocked
     ck.rule("C03.6-SIGMASK", "R-WHO-CALLS: the process signal mask / dispositions are touched only by create_signalfd, and only to block the "
